@@ -11,6 +11,7 @@ import (
 	"io"
 	"net/http"
 	"net/url"
+	"sort"
 	"strconv"
 	"strings"
 
@@ -596,8 +597,13 @@ func buildResponse(sc *Scenario, v *BackendView) *builtResponse {
 			out.Trailer = st
 		} else {
 			var sb strings.Builder
-			for k, vals := range st {
-				for _, val := range vals {
+			keys := make([]string, 0, len(st))
+			for k := range st {
+				keys = append(keys, k)
+			}
+			sort.Strings(keys)
+			for _, k := range keys {
+				for _, val := range st[k] {
 					sb.WriteString(strings.ToLower(k) + ": " + val + "\r\n")
 				}
 			}
